@@ -118,6 +118,10 @@ def generate():
 
     # slot layout (trace lines `slot+off`): stride and offset of the futex word inside one slot
     k = probe([H], {
+        # width of the event counter and of the value its operations yield (the type of the `events` locals
+        # is pinned textually by src_start_consumer / src_consume_until_empty)
+        "eventsBytes": "sizeof(::babylon::ConcurrentExecutionQueue<uint64_t>::_events)",
+        "eventsValueBytes": "sizeof(decltype(::std::declval<::babylon::ConcurrentExecutionQueue<uint64_t>&>()._events.load()))",
         "slotStride": "sizeof(::babylon::ConcurrentBoundedQueue<uint64_t>::Slot)",
         "slotFutexOff": "offsetof(::babylon::ConcurrentBoundedQueue<uint64_t>::Slot, futex)",
     })
